@@ -147,6 +147,11 @@ class Expander:
             if isinstance(n, ast.Name) and isinstance(n.ctx, ast.Load):
                 self.bind[id(n)] = env.get(n.id) or T("free", n.id)
                 continue
+            if isinstance(n, ast.Attribute) and isinstance(n.value, ast.Name) and n.value.id == "self" and \
+                    isinstance(n.ctx, ast.Load) and ("self." + n.attr) in env:
+                # an attribute of self assigned earlier in this function
+                self.bind[id(n)] = env["self." + n.attr]
+                continue
             if isinstance(n, ast.Lambda):
                 sub = dict(env)
                 for p in n.args.args:
@@ -192,6 +197,8 @@ class Expander:
             self._record_names(t.value, env)
             self.stores.append(Store("attr", self._tr(t.value), T("const", t.attr), val, t, self._cur_stmt,
                                      tuple(self.guard_stack)))
+            if isinstance(t.value, ast.Name) and t.value.id == "self":
+                env["self." + t.attr] = val
         elif isinstance(t, ast.Subscript):
             self._record_names(t.value, env)
             self._record_names(t.slice, env)
@@ -362,6 +369,9 @@ class Expander:
         if isinstance(e, ast.Constant):
             return T("const", e.value, node=e)
         if isinstance(e, ast.Attribute):
+            b = self.bind.get(id(e))
+            if b is not None:
+                return b
             return T("attr", e.attr, [self._tr(e.value)], node=e)
         if isinstance(e, ast.Subscript):
             return T("sub", None, [self._tr(e.value), self._tr(e.slice)], node=e)
